@@ -104,12 +104,16 @@ def inD02Function (env : Env) (cfg : Cfg) (ir : IR) : Bool :=
   namesOk ir && defaultsSuffix ir.params && ir.params.all (okParam true) &&
   (match ir.returns with | some r => okFnReturn env cfg r | none => true)
 
+/-- the type inside `Optional[…]`, else the type itself -/
+def baseOf (t : String) : String :=
+  if startsWith t "Optional[" && endsWith t "]" then String.ofList ((t.toList.drop 9).dropLast) else t
+
 /-- argparse: a scalar type with a default of that very type, or `Optional[scalar]` with such a default -/
 def okArgparseParam (kv : String × Param) : Bool :=
   okName kv.1 &&
   (match kv.2.typ, kv.2.default with
    | some t, some (.val d) =>
-     let base := if startsWith t "Optional[" && endsWith t "]" then String.ofList ((t.toList.drop 9).dropLast) else t
+     let base := baseOf t
      isSimple base && d.typeName == base && (t == base || t == "Optional[" ++ base ++ "]") &&
      (match d with
       | .str s => !(decide (s.toList.length > 2) && quotedLike s) && !codeQuoted s
